@@ -1,8 +1,10 @@
 (* C14 — abandoned or rejected writes leave no trace in the index or temp area.
    Every step of a writer's life except an accepted commit leaves every lookup unchanged, and when the writer
-   is gone so is its temp file.  (A background write "in flight" at drop time is runtime behaviour of the
-   async executors: exercised by the harness, not expressible in the model — partial there.) *)
-From CC Require Import Bytes Codec Utf8 Lines Json Sri Record Fs Prog Api BytesP CodecP FsP ProgP SriP RecordP IndexP ReadP WriteP CommitP.
+   is gone so is its temp file.  A write cancelled while its background task is in flight is in the model too (Sess.v OAbandon: the
+   chunk is stored and hashed, not acknowledged; the answer stays in the writer) and checked against the real writers
+   by the "cancel" suite; when exactly the executor drops the temp file of a writer dropped in that state is runtime
+   behaviour the model does not order — partial there. *)
+From CC Require Import Bytes Codec Utf8 Lines Json Sri Record Fs Prog Api BytesP CodecP FsP ProgP SriP RecordP IndexP ReadP WriteP CommitP Crash Sess SessP.
 
 Section C14.
 Variable hash : algo -> bytes -> bytes.
@@ -38,6 +40,19 @@ Theorem C14_rejected_no_trace f w now :
   CacheInv (snd (run (commit hash w now) f)).
 Proof. exact (commit_rejected_frame hash HL f w now). Qed.
 
+(* over sessions (SessP.v): in ANY reachable state of ANY session — other writers open, other calls interleaved — opening a
+   writer, feeding it (acknowledged writes, single write() calls, writes cancelled while the background task is in flight)
+   and dropping it changes no location under index-v5 or content-v2, so no lookup, listing or read can tell; and after the
+   drop its temp file is gone *)
+Theorem C14_sessions ops o now :
+  Forall sess_op ops -> quiet_op o ->
+  let s := snd (run_ops hash sstate0 ops 0) in
+  (forall l, is_index l \/ is_content l -> lookup (s_fs (snd (step hash s o now))) l = lookup (s_fs s) l) /\
+  (forall h ws, o = ODrop h -> hget h (s_w s) = Some ws -> lookup (s_fs (snd (step hash s o now))) (w_tmp ws) = None).
+Proof.
+  intros H1 H2 s. apply (quiet_ops_no_trace hash); [|exact H2]. exact (run_ops_sinv hash HL ops sstate0 0 (sinv_init hash) H1).
+Qed.
+
 End C14.
 
 Definition toy_hash (a : algo) (d : bytes) : bytes :=
@@ -55,3 +70,4 @@ Print Assumptions C14_open_no_effect.
 Print Assumptions C14_chunk_no_effect.
 Print Assumptions C14_drop_no_trace.
 Print Assumptions C14_rejected_no_trace.
+Print Assumptions C14_sessions.
